@@ -390,6 +390,40 @@ func runC04(c *fw.Ctx) {
 			}
 		})
 	}
+	for i := 0; i < c.Pick(400, 4000); i++ { // a matrix times ITSELF (the same object, and an equal-valued other object), also inside a batch
+		c.Case(func(k *fw.K) {
+			n := 1 + k.Rng.Intn(5)
+			batch := RandShape(k.Rng, 0, 2, 3)
+			shape := append(ref.CopyInts(batch), n, n)
+			a := UniqueInts(k.Rng, shape)
+			if k.Rng.Intn(3) == 0 && len(batch) > 0 { // every matrix of the batch holds the same values
+				for i := range a.Data {
+					a.Data[i] = a.Data[i%(n*n)]
+				}
+			}
+			in := ref.Instr{Op: "matmul"}
+			k.Case = fcase{In: in, Ops: []*ref.T{a, a}, Tag: "a matrix times itself"}
+			k.Key("matmul-self/%s", shapeKey(shape))
+			k.Count("matmul_self_cases", 1)
+			want, err := ref.Apply(in, []*ref.T{a, a})
+			if err != nil {
+				k.Failf("harness: %v", err)
+				return
+			}
+			ra, rb := rt.MustLeaf(a, k.Rng.Intn(2) == 0), rt.MustLeaf(a.Clone(), false)
+			for vi, pair := range [][2]tensor.Tensor{{ra, ra}, {ra, rb}, {rb, ra}} {
+				var got tensor.Tensor
+				if p := call(func() { got, err = pair[0].MatMul(pair[1]) }); p != nil || err != nil {
+					k.Failf("A.MatMul(A) on shape %v (variant %d): panic=%v err=%v", shape, vi, p, err)
+					return
+				}
+				if e := rt.Compare(got, want, 0, 0, nil, 0); e != nil {
+					k.Failf("A.MatMul(A) on shape %v (%s): %v", shape, []string{"the same object twice", "an equal-valued other object as right operand", "an equal-valued other object as left operand"}[vi], e)
+					return
+				}
+			}
+		})
+	}
 	for i := 0; i < c.Pick(400, 4000); i++ { // exact power-of-two scaling: (s.A).(B/s) = A.B bit for bit, also for s = 2^-840
 		c.Case(func(k *fw.K) { c04Scaled(k) })
 	}
